@@ -1433,8 +1433,16 @@ class Runner:
         if prev and any(d["readers"] for d in prev["st"]["ds"]):
             self._stat("atexit:with-registered-readers")
         if segs:
+            # mechanism: is every left-over segment one that a LATE WRITER created after the store had already released
+            # that allocation (stale `created` dataset evicted / dropped while its writer had not even created the segment)?
+            # The Manager never learns of such a segment, so its exit handler cannot unlink it.
+            late = []
+            for name, *_ in segs:
+                gs = [g for g in self.grants if g.get("shmid") == name or g.get("k") == name]
+                late.append(bool(gs) and gs[-1].get("phase") == "gone" and bool(gs[-1].get("dropped_open")))
             self._flag("segments-left-after-atexit", f"after Manager.atexit the segments {[x[0] for x in segs]} are still in /dev/shm "
-                       f"(datasets still known: {[(d['k'], d['status'], len(d['readers'])) for d in full]})")
+                       f"(datasets still known: {[(d['k'], d['status'], len(d['readers'])) for d in full]})",
+                       late_writer_segment=all(late))
 
     def finish(self):
         if ATEXIT_LINE and not getattr(self, "deadlocked", False):
